@@ -33,6 +33,12 @@ def src_for(op, a, b, form):
         return f"Z := Int.bear; {lit(a)} {op} Z.new({lit(b)})"
     if form == 5:      # a zero that is computed from typed operands
         return f"Z := Int.bear; {lit(a)} {op} (Z.new(5) - Z.new(5))"
+    if form == 6:      # the operator written as a property call, through Obj.callProp, and through a stored function value
+        return f"({lit(a)}).{op}({lit(b)})"
+    if form == 7:
+        return f"Obj.callProp({lit(a)}, '{op}, {lit(b)})"
+    if form == 8:
+        return f"f := ({lit(a)})['{op}]; f({lit(a)}, {lit(b)})"
     if form == 1:
         return f"x := {lit(a)}; y := {lit(b)}; x {op} y"
     if form == 2:
@@ -122,7 +128,7 @@ def run():
 
     def add(op, a, b, expect=None):
         rid = str(len(reqs))
-        form = rng.choice([0, 0, 0, 0, 1, 2, 3, 4]) if op != "neg" else rng.choice([0, 0, 1, 2])
+        form = rng.choice([0, 0, 0, 0, 1, 2, 3, 4, 6, 7, 8]) if op != "neg" else rng.choice([0, 0, 1, 2])
         if b == 0 and op != "neg" and rng.random() < 0.3:
             form = rng.choice([3, 4, 5])
         src = src_for(op, a, b, form)
